@@ -53,11 +53,25 @@ def p_enc(op, args, real):
     return None
 
 
+def rsa15_shadow(args):
+    """known finding: general form, rcp not named, key is RSA, an RSA1_5 recipient precedes the key's own recipient"""
+    jwe, jwk = args.get("jwe"), args.get("jwk")
+    if "rcp" in args or not isinstance(jwe, dict) or not isinstance(jwe.get("recipients"), list):
+        return False
+    keys = jwk if isinstance(jwk, list) else [jwk]
+    if not any(isinstance(k, dict) and k.get("kty") == "RSA" for k in keys):
+        return False
+    algs = [(r.get("header") or {}).get("alg") for r in jwe["recipients"] if isinstance(r, dict)]
+    return "RSA1_5" in algs[:-1]
+
+
 def p_dec(op, args, real):
     if "crash" in real:
         return None
     exp = args.get("_pt")
     if exp is not None:
+        if not real.get("ok") and rsa15_shadow(args):
+            return ("dec:rsa15-shadows-later-recipient", "an RSA1_5 recipient earlier in the list shadows this key's recipient: " + json.dumps(strip(args))[:200])
         if not real.get("ok"):
             return ("dec:rejects-valid", "decryption failed (%s): %s" % (args.get("_why"), json.dumps(strip(args))[:400]))
         if real.get("pt") != exp:
@@ -124,6 +138,170 @@ def run(ctx):
             dec_ops.append(("jwe.dec", {"jwe": tok, "jwk": foreign, "rand": "00" * 600, "_expect_fail": True, "_why": why + " foreign key"}))
     cmp(ctx, dec_ops, p_dec)
     ctx.count("tokens", len(dec_ops) // 2)
+    run_infer(ctx, pool, pts)
+    run_multi(ctx, pool, pts)
+    run_stream(ctx, pool, pts)
+    run_vectors(ctx)
+
+
+def chunks(rng, data):
+    parts, left = [], data
+    while left:
+        k = rng.randrange(1, min(len(left), 200) + 1)
+        parts.append(left[:k].hex())
+        left = left[k:]
+    if rng.random() < 0.3:
+        parts.insert(rng.randrange(len(parts) + 1), "")
+    return parts
+
+
+def run_infer(ctx, pool, pts):
+    """nothing named by the caller: key-management and content algorithms are inferred and must be recorded"""
+    rng = ctx.rng
+    ops = []
+    keysets = ["oct-16", "oct-24", "oct-32", "EC-P256", "EC-P384", "EC-P521", "RSA-2048"]
+    for name in keysets:
+        for jwe in ({}, {"protected": {}}, {"protected": {"kid": "x"}}, {"unprotected": {"kid": "u"}}, {"protected": {"enc": "A256GCM"}}):
+            ops.append(("jwe.enc", {"jwe": jwe, "jwk": pool[name], "pt": pts[1].hex(), "rand": rng.randbytes(200).hex(),
+                                    "_wrap": "ECDH-ES" if name.startswith(("EC", "RSA")) else None, "_expect_ok": True, "_name": name}))
+    for pw in ("pw", "p" * 28, "p" * 40):
+        ops.append(("jwe.enc", {"jwe": {}, "jwk": pw, "pt": pts[1].hex(), "rand": rng.randbytes(200).hex(), "_expect_ok": True}))
+    for enc in E.ENCS:
+        ops.append(("jwe.enc", {"jwe": {}, "jwk": dict(pool[E.OCT_BY_LEN[E.CEKLEN[enc]]], alg=enc), "pt": pts[2].hex(),
+                                "rand": rng.randbytes(200).hex(), "_expect_ok": True}))
+    real, model = cmp(ctx, ops, p_enc)
+    dec = []
+    for (op, a), r, m in zip(ops, real, model):
+        for side, res in (("jose", r), ("lean", m)):
+            if res.get("ok"):
+                dec.append(("jwe.dec", {"jwe": res["jwe"], "jwk": a["jwk"], "rand": "00" * 600, "_pt": a["pt"], "_why": side + " inferred algorithms"}))
+    cmp(ctx, dec, p_dec)
+
+
+def run_multi(ctx, pool, pts):
+    """several recipients (enc_jwk per key, then enc_cek), every recipient decrypts; re-wrap to a new recipient"""
+    rng = ctx.rng
+    quick = ctx.tier == "quick"
+    kinds = [("A128KW", "oct-16"), ("A256GCMKW", "oct-32"), ("ECDH-ES+A128KW", "EC-P256"), ("RSA-OAEP", "RSA-2048"),
+             ("PBES2-HS256+A128KW", "pw"), ("A192KW", "oct-24"), ("ECDH-ES+A256KW", "EC-P521"), ("RSA1_5", "RSA-2048-b")]
+    def key(n):
+        return "correct horse" if n == "pw" else pool[n]
+    state = []
+    # the recorded finding, always exercised: an RSA1_5 recipient in front of another RSA recipient
+    state.append({"jwe": {"protected": {"enc": "A128GCM"}}, "cek": {}, "sel": [kinds[7], kinds[3]], "i": 0, "enc": "A128GCM", "pt": pts[1]})
+    for _ in range(30 if quick else 300):
+        n = rng.randrange(1, 4)
+        sel = [rng.choice(kinds) for _ in range(n)]
+        enc = rng.choice(E.ENCS)
+        state.append({"jwe": {"protected": {"enc": enc}}, "cek": {}, "sel": sel, "i": 0, "enc": enc, "pt": rng.choice(pts)})
+    for step in range(3):
+        ops = []
+        live = [s for s in state if s["i"] < len(s["sel"]) and not s.get("dead")]
+        for s in live:
+            w, kn = s["sel"][s["i"]]
+            ops.append(("jwe.enc_jwk", {"jwe": s["jwe"], "rcp": {"header": {"alg": w}}, "jwk": key(kn), "cek": s["cek"],
+                                        "rand": rng.randbytes(200).hex(), "_wrap": w, "_expect_ok": True}))
+        if not ops:
+            break
+        real, model = cmp(ctx, ops, p_enc)
+        for s, r in zip(live, real):
+            if r.get("ok"):
+                s["jwe"], s["cek"] = r["jwe"], r["cek"]
+                s["i"] += 1
+            else:
+                s["dead"] = True
+    ops = []
+    done = [s for s in state if not s.get("dead")]
+    for s in done:
+        ops.append(("jwe.enc_cek", {"jwe": s["jwe"], "cek": s["cek"], "pt": s["pt"].hex(), "rand": rng.randbytes(64).hex(), "_expect_ok": True}))
+    real, model = cmp(ctx, ops, p_enc)
+    dec, rew = [], []
+    for s, r, m in zip(done, real, model):
+        for side, res in (("jose", r), ("lean", m)):
+            if not res.get("ok"):
+                continue
+            tok = res["jwe"]
+            n = len(s["sel"])
+            if n > 1 and not (isinstance(tok.get("recipients"), list) and len(tok["recipients"]) == n and "encrypted_key" not in tok):
+                ctx.pfails.append(("enc:general-form", "%d recipients but %s" % (n, json.dumps(tok)[:300]), "jwe.enc_cek", {}, res))
+            for w, kn in s["sel"]:
+                dec.append(("jwe.dec", {"jwe": tok, "jwk": key(kn), "rand": "00" * 600, "_pt": s["pt"].hex(), "_why": "%s recipient %s of %d" % (side, w, n)}))
+            dec.append(("jwe.dec", {"jwe": tok, "jwk": pool["oct-128"], "rand": "00" * 600, "_expect_fail": True, "_why": "foreign key, %d recipients" % n}))
+            dec.append(("jwe.dec", {"jwe": tok, "jwk": [pool["oct-128"], key(s["sel"][-1][1])], "rand": "00" * 600, "_pt": s["pt"].hex(), "_why": "key list"}))
+            if side == "jose":
+                rew.append((tok, s))
+    cmp(ctx, dec, p_dec)
+    # re-wrap: recover the CEK with the first recipient's key, wrap it to a new recipient, no re-encryption
+    ops = [("jwe.dec_jwk", {"jwe": tok, "jwk": key(s["sel"][0][1]), "rand": "00" * 600}) for tok, s in rew]
+    real, model = cmp(ctx, ops, lambda *a: None)
+    ops2, keep = [], []
+    for (tok, s), r in zip(rew, real):
+        if "v" in r:
+            w, kn = rng.choice(kinds)
+            ops2.append(("jwe.enc_jwk", {"jwe": tok, "rcp": {"header": {"alg": w}}, "jwk": key(kn), "cek": r["v"],
+                                         "rand": rng.randbytes(200).hex(), "_wrap": w, "_expect_ok": True}))
+            keep.append((s, kn))
+        else:
+            ctx.pfails.append(("dec_jwk:rejects-valid", "CEK not recovered: " + json.dumps(tok)[:300], "jwe.dec_jwk", {}, r))
+    real2, model2 = cmp(ctx, ops2, p_enc)
+    dec = []
+    for (s, kn), r in zip(keep, real2):
+        if r.get("ok"):
+            dec.append(("jwe.dec", {"jwe": r["jwe"], "jwk": key(kn), "rand": "00" * 600, "_pt": s["pt"].hex(), "_why": "re-wrapped, new key"}))
+            dec.append(("jwe.dec", {"jwe": r["jwe"], "jwk": key(s["sel"][0][1]), "rand": "00" * 600, "_pt": s["pt"].hex(), "_why": "re-wrapped, old key"}))
+    cmp(ctx, dec, p_dec)
+
+
+def run_stream(ctx, pool, pts):
+    """streamed encryption and decryption under random chunkings, with and without compression"""
+    rng = ctx.rng
+    ops = []
+    for enc in E.ENCS:
+        cek = {"kty": "oct", "k": b64u(rng.randbytes(E.CEKLEN[enc]))}
+        for zip_ in (False, True):
+            for pt in (pts[1], pts[4], pts[5]):
+                jwe = {"protected": dict({"enc": enc}, **({"zip": "DEF"} if zip_ else {}))}
+                for _ in range(2):
+                    ops.append(("jwe.enc_cek_io", {"jwe": jwe, "cek": cek, "feeds": chunks(rng, pt), "rand": rng.randbytes(32).hex(),
+                                                   "_zip": zip_, "_expect_ok": True, "_pt": pt.hex(), "_cek": cek}))
+                ops.append(("jwe.enc_cek_io", {"jwe": jwe, "cek": cek, "feeds": [pt.hex()], "rand": rng.randbytes(32).hex(),
+                                               "_zip": zip_, "_expect_ok": True, "_pt": pt.hex(), "_cek": cek}))
+    real, model = cmp(ctx, ops, p_enc)
+    dec = []
+    for (op, a), r, m in zip(ops, real, model):
+        for side, res in (("jose", r), ("lean", m)):
+            if not res.get("ok"):
+                continue
+            tok = res["jwe"]
+            why = "%s streamed enc (%d feeds) zip=%s" % (side, len(a["feeds"]), a["_zip"])
+            dec.append(("jwe.dec_cek", {"jwe": tok, "cek": a["_cek"], "_pt": a["_pt"], "_why": why}))
+            ct = b64d(tok["ciphertext"])
+            dec.append(("jwe.dec_cek_io", {"jwe": {k: v for k, v in tok.items() if k != "ciphertext"}, "cek": a["_cek"],
+                                           "feeds": chunks(rng, ct), "_pt": a["_pt"], "_why": why + ", streamed dec"}))
+    cmp(ctx, dec, p_dec)
+
+
+def run_vectors(ctx):
+    d = os.path.join(os.environ.get("VERIF_REPO", "/repo"), "tests", "vectors")
+    ops = []
+    for f in sorted(glob.glob(os.path.join(d, "*.jwe[fg]"))):
+        base = f.rsplit(".", 1)[0]
+        if not os.path.exists(base + ".pt"):
+            continue
+        pt = open(base + ".pt", "rb").read()
+        kfs = [k for k in glob.glob(base + ".jwk") + glob.glob(base + ".[0-9].jwk") + glob.glob(base + ".jwkset")]
+        for kf in kfs:
+            try:
+                jwe, jwk = json.load(open(f)), json.load(open(kf))
+            except Exception:
+                raw = open(kf).read().strip()
+                try:
+                    jwe = json.load(open(f)); jwk = json.loads(raw)
+                except Exception:
+                    continue
+            ops.append(("jwe.dec", {"jwe": jwe, "jwk": jwk, "rand": "00" * 600, "_pt": pt.hex(), "_why": "RFC vector " + os.path.basename(f) + " " + os.path.basename(kf)}))
+    cmp(ctx, ops, p_dec)
+    ctx.count("rfc-vectors", len(ops))
 
 
 def replay(ctx, rp):
